@@ -657,7 +657,7 @@ func cmdCheck(args []string) {
 		sort.Strings(unm)
 		ev := Evidence{PropertyID: *prop, Tier: *tier, Seed: seed, Level: "proof", WallS: time.Since(start).Seconds(), Violations: violations,
 			Coverage: map[string]interface{}{
-				"obligations": len(results) - len(knownHit), "discharged": proved, "obligations_including_known_findings": len(results),
+				"obligations": len(results) - len(knownHit) - len(unreachableAll), "discharged": proved, "obligations_including_known_findings": len(results) - len(unreachableAll), "reachability_covers_not_counted": len(unreachableAll),
 				"checker_cmd":  fmt.Sprintf("bin/check %s --tier %s", *prop, *tier),
 				"trusted_base": []string{"go/types + go/ssa (x/tools v0.50.0) as the meaning of the Go source", "govc translation of the SSA subset G0 (DESIGN.md 2.3)", "z3 5.1.0 (z3-new), z3 4.8.12, cvc5 1.0.3", "platform linux/amd64: int is 64 bits"},
 				"samples":      samples, "functions_under_contract": fl, "by_backend": byBackend, "solver_time_s": solverTime, "slowest": slow,
